@@ -162,10 +162,11 @@ HOOK_COMMITS = ['ae5437e']
 PROPS = {
     'C01': dict(
         monitor=True,
-        streams=[chain_stream(8000, 300000, _nt_c01),
+        streams=[chain_stream(8000, 300000, _nt_c01), chain_stream(3000, 100000, _nt_c01, name='ifaceout'),
                  dict(name='history', n_quick=800, n_thorough=20000, nontrivial=_nt_pair, compare=_pair_compare, wf_check=False)],
         rule=CHAIN_RULE + 'C01 non-trivial: the chain binds and some provider is called with at least one argument. stream history (as for C11, without the race '
-             'detector): the Loose / interface-matching clause must also hold for providers from which other providers have been derived with further Loose annotations',
+             'detector): the Loose / interface-matching clause must also hold for providers from which other providers have been derived with further Loose annotations. '
+             'stream ifaceout: chains with a Loose source, one or two decorators func(I) I and consumers of I, each static-eligible or not (interface-typed outputs)',
         level_text='Theorem chain_refines (Coq, no axioms): for every case whose plan passes plan_wf, every provider behaviour (wrappers as arbitrary '
                    'interaction trees over any world) and every init/invoke session, the slot machine that mirrors bind.go/generate.go yields the same '
                    'results and final world as the environment-passing reference semantics, in which a parameter is by definition the most recent '
@@ -189,7 +190,7 @@ PROPS = {
     'C04': dict(
         monitor=True,
         streams=[chain_stream(5000, 200000, _nt_err, name='malformed'), chain_stream(3000, 100000, _nt_bound),
-                 chain_stream(2000, 50000, _nt_bound, name='reorder'),
+                 chain_stream(2000, 50000, _nt_bound, name='reorder'), chain_stream(2000, 50000, _nt_bound, name='ifaceout'),
                  dict(name='edits', n_quick=2000, n_thorough=50000, nontrivial=_edits_nontrivial)],
         rule=CHAIN_RULE + 'stream malformed: a generated chain with 1-3 injected defects (literal or wrapper in last position, anonymous func parameter/result, '
              'typed nil function, unhashable inputs on Memoize/Cacheable providers, conflicting cache and selection annotations, invoke/init passed as non-pointer, '
@@ -218,7 +219,8 @@ PROPS = {
     ),
     'C06': dict(
         monitor=True,
-        streams=[chain_stream(6000, 200000, _nt_c06, name='static'), chain_stream(3000, 100000, _nt_bound)],
+        streams=[chain_stream(6000, 200000, _nt_c06, name='static'), chain_stream(3000, 100000, _nt_bound),
+                 chain_stream(2000, 50000, _nt_c06, name='ifaceout')],
         rule=CHAIN_RULE + 'stream static: the same generator biased to literals, Cacheable/MustCache/Memoize/Singleton/NotCacheable providers with inputs from '
              'literals, init arguments, other static providers or invoke arguments, init functions and sessions of 2-7 steps; C06 non-trivial: the chain binds '
              'and includes a static injector; the monitor compares class/group of every provider, the number of calls of every provider over the session and '
